@@ -59,14 +59,15 @@ def points_of(spec, fam):
     if spec["points"] != "gkls":
         return [np.array(p, dtype=np.double) for p in spec["points"]]
     # a ball centre (branch: 'coincides with the minimiser'), a point inside the same ball, a point just inside another
-    # ball's boundary, a paraboloid point
+    # ball's boundary, a paraboloid point, points inside two of the later balls
     g = build(spec, spec["keys"][0])
     m = g.function.GKLS_minima
     M, rho = np.array(m.local_min), np.array(m.rho)
     n = M.shape[1]
     e = np.zeros(n)
     e[0] = 1.0
-    return [M[1].copy(), M[1] + e * rho[1] * 0.5, M[2] + e * rho[2] * (1 - 1e-9), np.full(n, 0.3)]
+    return [M[1].copy(), M[1] + e * rho[1] * 0.5, M[2] + e * rho[2] * (1 - 1e-9), np.full(n, 0.3),
+            M[3] + e * rho[3] * 0.4, M[9] - e * rho[9] * 0.7]
 
 
 def holder(fid):
@@ -262,6 +263,34 @@ def unmerged(task):
     return n, viol
 
 
+def deep_history(task):
+    """thousands of evaluations on ONE instance, heavily skewed towards one point (every point of the family's alphabet
+    takes its turn as the hot one), every value compared with the history-free reference"""
+    fam, refs, reps = task["fam"], task["refs"], task["reps"]
+    W = World(fam, refs)
+    spec = W.spec
+    fids = spec.get("fids", [None])
+    msgs = []
+    count = 0
+    for order in (list(range(len(W.pts))), list(range(len(W.pts)))[::-1]):
+      obj = build(spec, spec["keys"][0])      # a new instance for each order in which the points take their turn
+      n = dim_of(obj)
+      for hot in order:
+        for i in range(reps):
+            j = hot if i % 50 else (i // 50) % len(W.pts)
+            fid = fids[(i // 7) % len(fids)]
+            arr = np.array(W.pts[j][:n], dtype=np.double)
+            got = obj.Calculate(Point(arr, []), holder(fid)).value
+            count += 1
+            want = float.fromhex(refs[f"0|{j}|{fid}"])
+            if not (got == want):
+                msgs.append(f"{fam}: evaluation number {count} on one instance (point p{j}, {i} evaluations into the stretch "
+                            f"in which p{hot} is evaluated almost exclusively; hot points in the order {order}) gives {got!r}, "
+                            f"a fresh instance gives {want!r}")
+                return count, msgs
+    return count, msgs
+
+
 def cross_family(refs):
     """interleave three families on shared process state: evaluate everything, then everything again in another order"""
     fams = ["GKLS2", "Grishagin", "Hill", "Shekel", "GKLS4"]
@@ -290,7 +319,7 @@ def run(ctx):
     th = ctx.thorough
     refs = fresh_refs()
     fams = list(fam_specs())
-    btasks = [dict(fam=f, refs=refs[f], cap=3000 if th else 600) for f in fams]
+    btasks = [dict(fam=f, refs=refs[f], cap=1500 if th else 150) for f in fams]
     states = trans = 0
     info = {}
     for t, (ns, nt, viol, closed, depth) in zip(btasks, pmap(bfs, btasks)):
@@ -314,6 +343,12 @@ def run(ctx):
         res.merge_violations(viol)
     nc, viol = cross_family(refs)
     res.merge_violations(viol)
+    dtasks = [dict(fam=f, refs=refs[f], reps=1500 if not th else 4000) for f in fams]
+    deep = 0
+    for t, (n, msgs) in zip(dtasks, pmap(deep_history, dtasks)):
+        deep += n
+        for m in msgs:
+            res.add_violation(dict(driver="deep", fam=t["fam"], reps=t["reps"], message=m, sig={}))
     res.cov = dict(
         states=states, transitions=trans, traces_validated_against_impl=seqs + nc, evaluations=trans + seqs + nc,
         distinct_nontrivial=seqs,
@@ -321,7 +356,7 @@ def run(ctx):
              "evaluate X at p_j with fresh / reused holder} per family; traces = unmerged evaluation sequences after "
              "constructing A, B, C, plus cross-family interleavings; every evaluation compared with reference values from a "
              "fresh sub-process",
-        exhaustive=all(v["closed"] for v in info.values()), per_family=info, unmerged_length=L, cross_family_runs=nc,
+        exhaustive=all(v["closed"] for v in info.values()), per_family=info, deep_history_evaluations=deep, unmerged_length=L, cross_family_runs=nc,
         samples=[[World("GKLS2", refs["GKLS2"]).show(k) for k in (0, 1, 3, 9, 4)]],
     )
     res.assumptions = ["members and points limited to the alphabet (two members, two or three points per family, one of them "
@@ -341,6 +376,8 @@ def replay(rec):
             if msgs:
                 return [m + (f" [on repetition {rep + 1} of the recorded history]" if rep else "") for m in msgs]
         return []
+    if rec["driver"] == "deep":
+        return deep_history(dict(fam=rec["fam"], refs=refs[rec["fam"]], reps=rec["reps"]))[1]
     if rec["driver"] == "cross":
         return [v["message"] for v in cross_family(refs)[1]]
     return [rec.get("message", "")]
